@@ -28,7 +28,7 @@ Section More.
     closed st = false -> strm st = None -> xlookup n (xref st) <> None ->
     step st (Put n g o big) = Err Other.
   Proof.
-    intros Hc Hs Hx. unfold Writer.step. destruct (accepts _ _ _); [|reflexivity].
+    intros Hc Hs Hx. unfold Writer.step. destruct (accepts _ _ _ _); [|reflexivity].
     unfold Writer.step0, Writer.put. rewrite Hc, Hs.
     destruct (xlookup n (xref st)) eqn:E; [|contradiction].
     destruct o.
